@@ -107,6 +107,7 @@ def main(argv):
     tsan_by_design = {}
     inconclusive = []
     viol_by_key = {}
+    foreign = {}
     diag_by_key = {}
     job_summaries = []
     jobs = spec['jobs']
@@ -164,7 +165,13 @@ def main(argv):
         if agg['cases_run'] < n * 0.9 and not agg['viols']:
             inconclusive.append('%s: only %d of %d cases ran'
                                 % (j['name'], agg['cases_run'], n))
+        prefixes = spec.get('key_prefixes')
         for v in agg['viols']:
+            if prefixes and not v['key'].startswith(tuple(prefixes)):
+                # observation belonging to another property decided by the
+                # same executions: listed, not judged here
+                foreign[v['key']] = foreign.get(v['key'], 0) + 1
+                continue
             e = viol_by_key.setdefault(v['key'], dict(count=0, first=v, job=j))
             e['count'] += 1
         for k, n in agg.get('viol_counts', {}).items():
@@ -218,6 +225,7 @@ def main(argv):
             diagnostics={k: v for k, v in diag_by_key.items()},
             findings_matched=matched,
             new_violation_keys=[k for k, _ in new_viol],
+            keys_judged_by_other_properties=foreign,
             inconclusive=inconclusive,
             repo=repo,
         ),
